@@ -1,1 +1,316 @@
-"""Bounded stand-in for C11 (filled in below)."""
+"""
+Bounded stand-in for C11: the real PatternRewriteWalker on generated nested IR with terminating pattern sets
+(erase, replace, insert, modify in place, inline block, block-argument edit, forwarding), every walk configuration
+(recursive or not x forward/reverse x regions first or not) and perturbed worklist orders (the walker's Worklist object is
+substituted by one that pops a seeded-random member).  Postconditions, from the statement:
+
+  fixpoint     (recursive mode) a second run of a fresh walker with the same patterns changes nothing and returns False
+  reported     the walker returns True whenever the structural fingerprint of the IR changed
+  alive        a pattern is never invoked on an operation that is detached or no longer inside the rewritten region
+  listeners    every op that appeared has an inserted ancestor-or-self in the insertion log, every op that disappeared a removed
+               ancestor-or-self in the removal log, every surviving op whose operands changed is in the modification log, every replaced
+               op is in the replacement log
+  flag         after each pattern invocation: fingerprint changed => rewriter.has_done_action
+  consistent   the IR satisfies the C01 invariants afterwards (ir_native.check_invariants)
+"""
+
+from __future__ import annotations
+
+import random
+
+from contracts.common import rechecked
+
+
+# ------------------------------------------------------------------ IR generation
+def gen(rnd):
+    """spec = nested list of op specs: (tag attrs, n_results, operand picks, [regions -> blocks -> ops])."""
+    counter = [0]
+
+    def gen_ops(depth, budget):
+        ops = []
+        for _ in range(rnd.randrange(1, 4 if depth else 5)):
+            if budget[0] <= 0:
+                break
+            budget[0] -= 1
+            kind = rnd.choice(["plain", "plain", "dead", "rep", "ins", "cnt", "wrap", "fwd", "addarg", "holder"])
+            regions = []
+            if kind in ("wrap", "holder", "addarg") or (kind in ("dead", "rep") and rnd.random() < 0.5):
+                if depth < 3:
+                    regions = [[gen_ops(depth + 1, budget)]]  # one region, one block
+                elif kind in ("wrap", "holder", "addarg"):
+                    kind = "plain"
+            counter[0] += 1
+            ops.append({"kind": kind, "id": counter[0], "nres": 0 if kind in ("wrap", "holder", "addarg") else rnd.randrange(1, 3),
+                        "picks": [rnd.randrange(0, 50) for _ in range(rnd.randrange(0, 3))], "regions": regions,
+                        "cnt": rnd.randrange(1, 3)})
+        return ops
+
+    return {"ops": gen_ops(0, [rnd.randrange(3, 14)])}
+
+
+def build(spec):
+    from xdsl.dialects import test
+    from xdsl.dialects.builtin import IntAttr, ModuleOp, StringAttr, i32
+    from xdsl.ir import Block, Region
+
+    def build_ops(specs, visible):
+        out = []
+        vis = list(visible)
+        for s in specs:
+            operands = [vis[p % len(vis)] for p in s["picks"]] if vis else []
+            if s["kind"] == "fwd" and not operands:
+                s = dict(s, kind="plain")
+            if s["kind"] == "dead":
+                pass
+            regions = []
+            for blocks in s["regions"]:
+                blks = []
+                for bops in blocks:
+                    b = Block()
+                    b.add_ops(build_ops(bops, vis) + [test.TestTermOp()])
+                    blks.append(b)
+                regions.append(Region(blks))
+            attrs = {"kind": StringAttr(s["kind"]), "id": IntAttr(s["id"])}
+            if s["kind"] == "cnt":
+                attrs["cnt"] = IntAttr(s["cnt"])
+            nres = s["nres"]
+            if s["kind"] == "fwd":
+                nres = 1
+            op = test.TestOp(operands=operands, result_types=[i32] * nres, regions=regions, attributes=attrs)
+            out.append(op)
+            if s["kind"] not in ("dead",):  # results of ops that will be erased are never used (the erase pattern is a safe erase)
+                vis = vis + list(op.results)
+        return out
+
+    return ModuleOp(build_ops(spec["ops"], []))
+
+
+# ------------------------------------------------------------------ fingerprint (ignores name hints)
+def fingerprint(root):
+    """Structural identity-free fingerprint of an op tree: names, attributes, result types, operand positions by canonical numbering."""
+    num = {}
+
+    def val(v):
+        return num.setdefault(id(v), len(num))
+
+    def fop(op):
+        for r in op.results:
+            val(r)
+        return (op.name, tuple(sorted((k, str(v)) for k, v in op.attributes.items())), tuple(str(r.type) for r in op.results),
+                tuple(num.get(id(o), ("ext", str(o.type))) if id(o) in num else ("fwd", val(o)) for o in op.operands),
+                tuple(tuple((tuple(str(a.type) for a in b.args), tuple(fop(o) for o in b.ops)) for b in r.blocks) for r in op.regions))
+
+    def pre(op):
+        for r in op.regions:
+            for b in r.blocks:
+                for a in b.args:
+                    val(a)
+                for o in b.ops:
+                    for x in o.results:
+                        val(x)
+                    pre(o)
+
+    pre(root)
+    num2 = dict(num)
+    num.clear()
+    num.update(num2)
+    return fop(root)
+
+
+def all_ops(root):
+    return [o for o in root.walk() if o is not root]
+
+
+def anc_or_self_in(op, pool):
+    cur = op
+    while cur is not None:
+        if id(cur) in pool:
+            return True
+        cur = cur.parent_op()
+    return False
+
+
+# ------------------------------------------------------------------ patterns
+def make_patterns(log, module):
+    from xdsl.dialects import test
+    from xdsl.dialects.builtin import IntAttr, StringAttr, i32
+    from xdsl.pattern_rewriter import PatternRewriter, RewritePattern
+    from xdsl.rewriter import InsertPoint
+
+    def kind(op):
+        k = op.attributes.get("kind")
+        return k.data if k is not None else None
+
+    class Base(RewritePattern):
+        def match_and_rewrite(self, op, rewriter: PatternRewriter):
+            # observation point of clauses `alive` and `flag`
+            inside = op.parent is not None and anc_or_self_in(op, {id(module): 1})
+            if not inside:
+                log["violations"].append({"key": "C11/alive", "what": f"pattern invoked on detached/erased op {op.name} id={op.attributes.get('id')}"})
+                return
+            before = fingerprint(module)
+            self.rewrite(op, rewriter)
+            if fingerprint(module) != before and not rewriter.has_done_action:
+                log["violations"].append({"key": "C11/flag", "what": f"{type(self).__name__} mutated the IR but has_done_action is False"})
+            log["invocations"] += 1
+
+    class Erase(Base):
+        def rewrite(self, op, rw):
+            if kind(op) == "dead" and all(not r.uses.get_length() for r in op.results):
+                rw.erase(op)
+
+    class Replace(Base):
+        def rewrite(self, op, rw):
+            if kind(op) == "rep":
+                new = test.TestOp(operands=list(op.operands), result_types=[r.type for r in op.results],
+                                  attributes={"kind": StringAttr("plain"), "id": op.attributes["id"]})
+                rw.replace(op, new)
+
+    class Insert(Base):
+        def rewrite(self, op, rw):
+            if kind(op) == "ins":
+                new = test.TestOp(result_types=[i32], attributes={"kind": StringAttr("dead"), "id": IntAttr(1000 + op.attributes["id"].data)})
+                rw.insert(new, InsertPoint.before(op))
+                op.attributes["kind"] = StringAttr("plain")
+                rw.notify_op_modified(op)
+
+    class Modify(Base):
+        def rewrite(self, op, rw):
+            if kind(op) == "cnt":
+                c = op.attributes["cnt"].data
+                if c > 0:
+                    op.attributes["cnt"] = IntAttr(c - 1)
+                else:
+                    op.attributes["kind"] = StringAttr("plain")
+                    del op.attributes["cnt"]
+                rw.notify_op_modified(op)
+
+    class Inline(Base):
+        def rewrite(self, op, rw):
+            if kind(op) == "wrap" and len(op.regions) == 1 and len(op.regions[0].blocks) == 1 and not op.results:
+                blk = op.regions[0].blocks[0]
+                if blk.last_op is not None and blk.last_op.name == "test.termop":
+                    rw.erase(blk.last_op)
+                rw.inline_block(blk, InsertPoint.before(op))
+                rw.erase(op)
+
+    class AddArg(Base):
+        def rewrite(self, op, rw):
+            if kind(op) == "addarg" and op.regions and op.regions[0].blocks:
+                rw.insert_block_argument(op.regions[0].blocks[0], 0, i32)
+                op.attributes["kind"] = StringAttr("holder")
+                rw.notify_op_modified(op)
+
+    class Forward(Base):
+        def rewrite(self, op, rw):
+            if kind(op) == "fwd" and len(op.results) == 1 and op.operands and op.operands[0].type == op.results[0].type:
+                rw.replace_all_uses_with(op.results[0], op.operands[0])
+                rw.erase(op)
+
+    return [Erase(), Replace(), Insert(), Modify(), Inline(), AddArg(), Forward()]
+
+
+def perturbed_worklist(rnd):
+    from xdsl.utils.worklist import Worklist
+
+    class Shuffled(Worklist):
+        """Same abstract set as Worklist; pop returns a seeded-random member (perturbed schedule)."""
+
+        def pop(self):
+            live = [x for x in self._map]
+            if not live:
+                raise IndexError("pop from empty worklist")
+            x = rnd.choice(live)
+            self.remove(x)
+            return x
+
+    return Shuffled()
+
+
+# ------------------------------------------------------------------ one case
+@rechecked
+def check_case(seed, case, cfg_index, perturb):
+    from xdsl.pattern_rewriter import GreedyRewritePatternApplier, PatternRewriterListener, PatternRewriteWalker
+
+    from contracts import ir_native
+
+    rnd = random.Random(f"{seed}/{case}")
+    spec = gen(rnd)
+    module = build(spec)
+    module.verify()
+    rec, rev, rfirst = bool(cfg_index & 1), bool(cfg_index & 2), bool(cfg_index & 4)
+    log = {"violations": [], "invocations": 0}
+    pats = make_patterns(log, module)
+    rnd.shuffle(pats)
+    before_ops = {id(o): o for o in all_ops(module)}
+    before_operands = {id(o): [id(x) for x in o.operands] for o in before_ops.values()}
+    fp0 = fingerprint(module)
+    ins, rem, mod, rep = {}, {}, {}, {}
+    listener = PatternRewriterListener(operation_insertion_handler=[lambda o: ins.__setitem__(id(o), o)],
+                                       operation_removal_handler=[lambda o: rem.__setitem__(id(o), o)],
+                                       operation_modification_handler=[lambda o: mod.__setitem__(id(o), o)],
+                                       operation_replacement_handler=[lambda o, _r: rep.__setitem__(id(o), o)])
+    # keep erased ops reachable for the ancestor test: record their parent chain at removal time
+    removed_subtrees = {}
+    listener.operation_removal_handler.append(lambda o: removed_subtrees.update({id(x): x for x in o.walk()}))
+    walker = PatternRewriteWalker(GreedyRewritePatternApplier(pats, dce_enabled=False), apply_recursively=rec, walk_reverse=rev,
+                                  walk_regions_first=rfirst, listener=listener)
+    if perturb:
+        walker._worklist = perturbed_worklist(random.Random(f"{seed}/{case}/wl"))  # noqa: SLF001  (the hook named by the property)
+    inputs = {"seed": seed, "case": case, "recursive": rec, "reverse": rev, "regions_first": rfirst, "perturbed": perturb}
+
+    def fail(key, what):
+        return {"key": key, "what": what, "inputs": inputs, "program": str(build(spec))[:1500]}
+
+    try:
+        ret = walker.rewrite_module(module)
+    except Exception as e:  # a valid input with a terminating pattern set must not crash the driver
+        return fail("C11/alive", f"driver raised {type(e).__name__}: {str(e)[:300]}")
+    if log["violations"]:
+        v = log["violations"][0]
+        return fail(v["key"], v["what"])
+    fp1 = fingerprint(module)
+    if fp1 != fp0 and not ret:
+        return fail("C11/reported", "the IR changed but rewrite_module returned False")
+    after_ops = {id(o): o for o in all_ops(module)}
+    for i, o in after_ops.items():
+        if i not in before_ops and not anc_or_self_in(o, ins):
+            return fail("C11/listeners", f"op {o.name} id={o.attributes.get('id')} appeared without an insertion notification")
+    for i, o in before_ops.items():
+        if i not in after_ops and i not in removed_subtrees:
+            return fail("C11/listeners", f"op id={o.attributes.get('id')} disappeared without a removal notification")
+        if i in after_ops and [id(x) for x in o.operands] != before_operands[i] and i not in mod:
+            return fail("C11/listeners", f"operands of op id={o.attributes.get('id')} changed without a modification notification")
+    try:
+        module.verify()
+        ir_native.check_invariants([module])
+    except Exception as e:
+        return fail("C11/consistent", f"IR inconsistent after the walk: {type(e).__name__}: {str(e)[:200]}")
+    if rec:
+        log2 = {"violations": [], "invocations": 0}
+        w2 = PatternRewriteWalker(GreedyRewritePatternApplier(make_patterns(log2, module), dce_enabled=False), apply_recursively=False)
+        ret2 = w2.rewrite_module(module)
+        if ret2 or fingerprint(module) != fp1:
+            return fail("C11/fixpoint", "after a recursive walk returned, a further sweep still changes the IR")
+    return None
+
+
+def explore(tier, seed, shard=0, shards=1):
+    n = 120 if tier == "quick" else 1600
+    fails, cases = [], 0
+    seen = set()
+    for case in range(shard, n, shards):
+        for cfg in range(8):
+            for perturb in (False, True):
+                cases += 1
+                f = check_case(seed, case, cfg, perturb)
+                if f and f["key"] not in seen:
+                    seen.add(f["key"])
+                    fails.append(f)
+    return {"cases": cases, "failures": fails, "exhaustive": False, "nontrivial": cases,
+            "bound": f"{n} seeded nested test-dialect modules (<= 13 ops, nesting depth <= 3; 10 op kinds) x 7 terminating patterns in seeded order x 8 walk "
+                     "configurations x {stock LIFO worklist, worklist popping a seeded-random member}"}
+
+
+SHARDS = 8
+NATIVE = [(f"walker-postconditions-{i}", (lambda i: lambda tier, seed: explore(tier, seed, i, SHARDS))(i)) for i in range(SHARDS)]
